@@ -5,7 +5,7 @@
 (3) general.*   general_composite_rect scanline-buffer carving.
 Memory-safety checks of CBMC (bounds, pointer, overflow, division by zero) are on in every job.
 """
-from vdriver import Job
+from vdriver import Job, ext_jobs, ext_meta
 
 A_DIV = ("allocation helpers: the divisor operands (b; c of pixman_malloc_abc) are not 0 - every call site passes a sizeof or a "
          "checked positive value (pixman_malloc_ab_plus_c tests b itself: b == 0 is in its domain)")
@@ -115,13 +115,19 @@ def tight_jobs(tier):
     return js
 
 
+# extension modules merged into this property's job list (vdriver.ext_jobs / ext_meta)
+EXT = [
+    ("C08_scl", None),
+]
+
+
 def jobs(tier):
     js = []
     js += alloc_jobs(tier)
     js += tight_jobs(tier)
     js += extent_jobs(tier)
     js += general_jobs(tier)
-    return js
+    return js + ext_jobs(tier, EXT)
 
 
 META = {
@@ -140,3 +146,4 @@ META = {
         "licence USE in the fetchers (C08), rasterizer clamps (C12), glyph boxes (C17): their own properties",
     ],
 }
+META = ext_meta(META, EXT)
